@@ -13,7 +13,7 @@ RULE = ('lines generated from the grammar SSH-<d>.<d+>-<token>[ <comments>] (tok
         'Banner.parse / Software.parse, end-to-end cases deliver 0..6 header lines then the banner from a scripted peer (CRLF or LF; in one write, cut in two inside the banner or a header line, or in 1-7 byte segments) and read the text and JSON report; '
         'a case is non-trivial when at least one generated line was parsed and every part (protocol, software, comments, flag, round trip) was compared; '
         'distinct = distinct batch / peer specifications')
-REQUIRED = {'lines_parsed': 5000, 'injected_lines': 500, 'product_lines': 300, 'e2e_runs': 20, 'e2e_long_header_lines': 8, 'e2e_with_header': 5, 'e2e_cut_inside_a_line': 10, 'e2e_header_then_cut_banner': 4}
+REQUIRED = {'lines_parsed': 5000, 'injected_lines': 500, 'product_lines': 300, 'e2e_runs': 20, 'e2e_blank_first_line': 6, 'e2e_long_header_lines': 8, 'e2e_with_header': 5, 'e2e_cut_inside_a_line': 10, 'e2e_header_then_cut_banner': 4}
 ASSUMPTIONS = ['comments are compared after collapsing whitespace runs to one space (the normalisation the tool documents)',
                'each character outside 32..126 is expected to be shown as one replacement character; a multi-byte UTF-8 sequence or an undecodable byte counts as one character',
                'end-to-end delivery is one TCP segment smaller than the tool\'s 2048-byte read (segmentation is C09\'s subject)']
@@ -82,6 +82,8 @@ def cases(tier, seed):
     ne = 64 if tier == 'quick' else 1200
     for i in range(ne):
         cs.append({'kind': 'e2e', 'seed': rng.randrange(1 << 30), 'json': i % 3 == 2, 'headers': i % 7, 'eol': '\n' if i % 5 == 4 else '\r\n', 'inject': i % 4 == 3, 'product': i % 2 == 0, 'cut': ['none', 'in-banner', 'in-header', 'bytewise'][(i // 2) % 4]})
+    for i in range(8 if tier == 'quick' else 60):
+        cs.append({'kind': 'e2e', 'seed': rng.randrange(1 << 30), 'json': i % 4 == 3, 'headers': i % 3, 'eol': '\n' if i % 2 == 0 else '\r\n', 'inject': False, 'product': i % 2 == 0, 'cut': ['none', 'in-banner'][(i // 2) % 2], 'blank_first': True})
     # one very long line before the banner (lengths around powers of two), half of them ending in something that looks like an identification string
     longs = [2047, 2048, 2049, 4095, 4096, 4097, 8191, 8192, 8193, 20000] if tier == 'quick' else list(range(2040, 2056)) + list(range(4088, 4104)) + list(range(8184, 8200)) + [16384, 20000, 65536, 70000]
     for i, L in enumerate(longs):
@@ -140,6 +142,8 @@ def run_e2e(c):
     pre = [rng.choice(HEADER_POOL) + rng.choice(['', ' %d' % rng.randint(0, 999)]) for _ in range(c['headers'])]
     if c['headers'] >= 3:
         pre.insert(1, '')   # a blank line carries no text and is not reported
+    if c.get('blank_first'):
+        pre.insert(0, '')   # ... also when it is the very first thing the peer sends (with LF endings: the first byte of the connection is a newline)
     probes = c['seed'] % 2 == 0   # half of the peers answer host-key and group-exchange probes, so the tool reconnects several times and sees the header lines again
     script = {'banner': line, 'pre': pre, 'eol': c['eol'], 'kex': audit.sym_kex(['curve25519-sha256'] + (['diffie-hellman-group-exchange-sha256'] if probes else []), ['ssh-ed25519', 'ssh-rsa'], ['aes128-ctr'], ['hmac-sha2-256']),
               'hostkeys': {'ssh-ed25519': {'type': 'ed25519'}, 'ssh-rsa': {'type': 'rsa', 'bits': 3072}} if probes else {}, 'gex': {'sizes': [3072], 'style': 'strict'} if probes else None}
@@ -200,7 +204,7 @@ def run_e2e(c):
             swl = rep.gen_value('software')
             if swl is None or (exp['product'] + ' ' + exp['version']) not in swl:  # a vendor name may precede the product
                 viol.append(_v('C16/e2e-software:' + exp['product'], 'software line does not carry product and version', line=line, got=swl))
-    return viol, {'e2e_runs': 1, 'e2e_long_header_lines': 1 if c.get('long_header') else 0, 'e2e_with_header': 1 if pre else 0, 'e2e_cut_inside_a_line': 1 if p.count('fault') else 0, 'e2e_header_then_cut_banner': 1 if pre and cut == 'in-banner' and p.count('fault') else 0}
+    return viol, {'e2e_runs': 1, 'e2e_blank_first_line': 1 if c.get('blank_first') else 0, 'e2e_long_header_lines': 1 if c.get('long_header') else 0, 'e2e_with_header': 1 if pre else 0, 'e2e_cut_inside_a_line': 1 if p.count('fault') else 0, 'e2e_header_then_cut_banner': 1 if pre and cut == 'in-banner' and p.count('fault') else 0}
 
 
 def run_case(c):
